@@ -454,6 +454,44 @@ Section Proofs.
     - eexists; eexists; split; [reflexivity|discriminate].
   Qed.
 
+  (* an input for which signing is attempted (not skipped by SINGLE) never completes with another
+     passphrase — whether or not it already carries a witness *)
+  Lemma sign_input_wrong_attempt st p f t i inp : Inv st -> p <> right ->
+    nth_error (t_ins t) i = Some inp -> (is_single f = true -> (i < length (t_outs t))%nat) ->
+    exists r st', sign_input st p f t i = (r, st', t) /\ r <> SOk.
+  Proof.
+    intros I Hp N Sg. unfold Sign.sign_input. rewrite N.
+    destruct (env (in_prev inp)) as [| |u] eqn:E; [eexists; eexists; split; [reflexivity|discriminate]..|].
+    destruct (u_spent u); [eexists; eexists; split; [reflexivity|discriminate]|].
+    assert (C : negb (is_single f) || (i <? length (t_outs t))%nat = true).
+    { destruct (is_single f) eqn:S1; [|reflexivity]. cbn [negb orb]. apply Nat.ltb_lt. auto. }
+    rewrite C.
+    destruct (u_addr u) as [a|] eqn:A; [|eexists; eexists; split; [reflexivity|discriminate]].
+    destruct (sign_wrong_any kdf digest shash open_box sk bytes branch_ok derive_sk sign zfix sfix nfix cfg right acct ent sk_of ulaws Sfix Nfix
+                st p a (sighash f t i (u_value u) (redeem (pub_at a))) I Hp) as (e & st' & Es & _).
+    rewrite Es. eexists; eexists; split; [reflexivity|discriminate].
+  Qed.
+
+  (* SignRawTx with any other passphrase never succeeds and never touches the transaction, for ANY
+     transaction with at least one input — unsigned, partially signed or completely signed (e.g.
+     the bytes an earlier successful call returned) — unless the flag is SINGLE and there is no
+     output at all (then no input is signed and the existing witnesses are merely re-checked) *)
+  Theorem sign_wrong_pass_any st p fs t : reachable st -> p <> right -> t_ins t <> [] ->
+    (forall f, parse_flag fs = Some f -> is_single f = true -> t_outs t <> []) ->
+    exists r st', sign_raw st p fs t = (r, st', t, None) /\ r <> SOk.
+  Proof.
+    intros R Hp Ne Sg.
+    pose proof (reachable_Inv kdf digest shash open_box sk bytes branch_ok derive_sk sign zfix sfix nfix cfg right acct ent sk_of ulaws Sfix Nfix st R) as I.
+    unfold Sign.sign_raw. destruct (parse_flag fs) as [f|] eqn:Pf.
+    - destruct (t_ins t) as [|inp0 l] eqn:Et; [congruence|].
+      cbn [length seq Sign.sign_loop].
+      destruct (sign_input_wrong_attempt st p f t 0 inp0 I Hp) as (r1 & st1 & E1 & N1).
+      { rewrite Et. reflexivity. }
+      { intros S1. specialize (Sg f eq_refl S1). destruct (t_outs t); [congruence|cbn; lia]. }
+      rewrite E1. destruct r1; try congruence; eexists; eexists; split; try reflexivity; congruence.
+    - eexists; eexists; split; [reflexivity|discriminate].
+  Qed.
+
   Theorem sign_wrong_pass_error st p fs f t inp u a : reachable st -> p <> right ->
     parse_flag fs = Some f -> nth_error (t_ins t) 0 = Some inp ->
     env (in_prev inp) = LOut u -> u_spent u = false -> u_addr u = Some a ->
